@@ -673,7 +673,10 @@ def _slices(n: int, alpha: int, listener: int, recycle: int, nf: int, split: boo
     base = dict(alpha=alpha, listener=listener, recycle=recycle, idle=idle, nf=nf)
     if not split:
         return [dict(base, op0=-1)]
-    return [dict(base, op0=j) for j, o in enumerate(ALPHABETS[alpha]) if o not in (SP_COMMIT, SP_ROLLBACK)]
+    # when every operation is faulted (nf == n) the first one must make a DBAPI call on a fresh connection without
+    # a transaction: commit / rollback / begin / detach / invalidate make none, those parts of the partition are empty
+    nocall = (COMMIT, ROLLBACK, BEGIN, DETACH, INVALIDATE) if nf >= n else ()
+    return [dict(base, op0=j) for j, o in enumerate(ALPHABETS[alpha]) if o not in (SP_COMMIT, SP_ROLLBACK) and o not in nocall]
 
 
 def harnesses(tier: str) -> List[Harness]:
